@@ -144,3 +144,20 @@ mod r#macro;
 pub use query::Query;
 #[doc(inline)]
 pub use world::World;
+
+/// Names for sealed associated types, used only by external compile-time verification witnesses.
+///
+/// Compiled only with `--cfg brood_verif`; adds no behavior.
+#[cfg(brood_verif)]
+#[doc(hidden)]
+pub mod verif {
+    /// The canonical form of entity `E` with respect to registry `R`.
+    pub type CanonicalEntity<R, E, I> =
+        <R as crate::registry::contains::entity::Sealed<E, I>>::Canonical;
+    /// The canonical form of entities `E` with respect to registry `R`.
+    pub type CanonicalEntities<R, E, I> =
+        <R as crate::registry::contains::entities::Sealed<E, I>>::Canonical;
+
+    #[cfg(feature = "rayon")]
+    pub use crate::system::schedule::verif::*;
+}
